@@ -79,9 +79,17 @@ theorem isKid_true {ad : Addr} {n : Nat} {a : Addr} (h : isKid ad n a = true) :
     rw [hl] at h2
     simp only [decide_eq_true_eq] at h2
     refine ⟨i, h2, ?_, rfl⟩
-    have := List.dropLast_append_getLast? i (by simpa using hl)
-    rw [h1] at this
-    exact this.symm
+    have hne : a ≠ [] := by
+      intro h0
+      rw [h0] at hl
+      simp at hl
+    have h3 := List.dropLast_concat_getLast hne
+    have h4 : a.getLast hne = i := by
+      have := List.getLast?_eq_some_getLast hne
+      rw [hl] at this
+      exact (Option.some.inj this).symm
+    rw [h1, h4] at h3
+    exact h3.symm
 
 theorem restoreKids_kidWins (ad : Addr) (n : Nat) (orig O : Objs) :
     restoreKids ad (kidWins ad n orig) O = restoreKidsO ad n orig O := by
